@@ -230,9 +230,16 @@ func inputLine(format string) (line string, file string) {
 
 var thoroughTier bool
 
-func pipelineCases(part, format, name, doc string, extra map[string]string, sizeBase int) []*Case {
+func pipelineCases(part, format, name, doc string, extra map[string]string, sizeBase int, inputs string) []*Case {
 	var out []*Case
 	in, file := inputLine(format)
+	if inputs != "" {
+		nv := ""
+		if format == "openapi-novalidate" {
+			nv = ", no_validate: true"
+		}
+		in = strings.ReplaceAll(inputs, "%NOVALIDATE%", nv)
+	}
 	for mi, m := range modes {
 		if (strings.HasPrefix(name, "G:") || !thoroughTier) && m.name == "types+builders" {
 			// types alone and everything on; the middle mode only matters when a
@@ -240,7 +247,7 @@ func pipelineCases(part, format, name, doc string, extra map[string]string, size
 			// special shapes only
 			continue
 		}
-		if m.flagsOff && (strings.HasPrefix(name, "G:") || strings.HasPrefix(name, "sdef/") && !thoroughTier) {
+		if m.flagsOff && (strings.HasPrefix(name, "G:") || (strings.HasPrefix(name, "sdef/") || strings.HasPrefix(name, "xpkg/")) && !thoroughTier) {
 			continue
 		}
 		langs := programmingLanguagesBlock
@@ -260,6 +267,20 @@ func pipelineCases(part, format, name, doc string, extra map[string]string, size
 	return out
 }
 
+// thoroughOnlyShape: variants of the two big families the quick tier leaves
+// to the thorough one (input order, package cycles, further member layouts).
+func thoroughOnlyShape(name string) bool {
+	if strings.HasPrefix(name, "xpkg/") {
+		return strings.HasSuffix(name, "/shared-first") || strings.HasSuffix(name, "/package-cycle")
+	}
+	for _, p := range []string{"sdef/ref-first/", "sdef/ref-middle-required/", "sdef/ref-first-required/", "sdef/named-middle/", "sdef/required-field/", "sdef/optfield/"} {
+		if strings.HasPrefix(name, p) {
+			return true
+		}
+	}
+	return false
+}
+
 func formatRank(f string) int {
 	switch f {
 	case "jsonschema":
@@ -275,12 +296,15 @@ func formatRank(f string) int {
 func shapeCases(thorough bool) (cases []*Case, nShapes, nG int, skipped map[string]int) {
 	skipped = map[string]int{}
 	for _, s := range allShapes() {
+		if !thorough && thoroughOnlyShape(s.Name) {
+			continue
+		}
 		formats := []string{s.Format}
 		if s.Format == "openapi" {
 			formats = append(formats, "openapi-novalidate")
 		}
 		for _, f := range formats {
-			cases = append(cases, pipelineCases("a-shapes", f, s.Name, s.Doc, s.Extra, len(s.Doc)+formatRank(f))...)
+			cases = append(cases, pipelineCases("a-shapes", f, s.Name, s.Doc, s.Extra, len(s.Doc)+formatRank(f), s.Inputs)...)
 		}
 		nShapes++
 	}
@@ -291,7 +315,7 @@ func shapeCases(thorough bool) (cases []*Case, nShapes, nG int, skipped map[stri
 				skipped[f]++
 				continue
 			}
-			cases = append(cases, pipelineCases("a-shapes", f, "G:"+g.String(), rd.Main, nil, len(rd.Main)+formatRank(f))...)
+			cases = append(cases, pipelineCases("a-shapes", f, "G:"+g.String(), rd.Main, nil, len(rd.Main)+formatRank(f), "")...)
 			nG++
 		}
 	}
